@@ -29,6 +29,9 @@ struct FloatTraits<T, 8 /*64bits*/> {
   using exponent_type = int16_t;
   static const exponent_type exponent_max = 308;
 
+  // number of entries in the tables below: 10^(2^i) for i < 9
+  static const uint8_t binaryPowersOfTenCount = 9;
+
   static pgm_ptr<T> positiveBinaryPowersOfTen() {
     ARDUINOJSON_DEFINE_PROGMEM_ARRAY(  //
         uint64_t, factors,
@@ -112,6 +115,9 @@ struct FloatTraits<T, 4 /*32bits*/> {
 
   using exponent_type = int8_t;
   static const exponent_type exponent_max = 38;
+
+  // number of entries in the tables below: 10^(2^i) for i < 6
+  static const uint8_t binaryPowersOfTenCount = 6;
 
   static pgm_ptr<T> positiveBinaryPowersOfTen() {
     ARDUINOJSON_DEFINE_PROGMEM_ARRAY(uint32_t, factors,
@@ -200,6 +206,13 @@ inline TFloat make_float(TFloat m, TExponent e) {
                            : traits::negativeBinaryPowersOfTen();
   if (e <= 0)
     e = TExponent(-e);
+
+  // The tables stop at 10^(2^(count-1)): with every entry applied the result
+  // is already infinity (or zero), so a larger exponent changes nothing.
+  const TExponent maxExponent =
+      TExponent((TExponent(1) << traits::binaryPowersOfTenCount) - 1);
+  if (e > maxExponent)
+    e = maxExponent;
 
   for (uint8_t index = 0; e != 0; index++) {
     if (e & 1)
